@@ -1,7 +1,7 @@
 """C03 - every event closes its energy budget against the Q-value and honours the window (decided clauses)."""
 from fractions import Fraction
 
-from .. import docs, genbb, ir, pathsum, tvcheck
+from .. import docs, genbb, ir, pathsum, project, tvcheck
 from ..framework import Report, where
 from ..project import AnalysisBroken
 from ..rules import cppflow
@@ -99,6 +99,9 @@ def run(tier, seed):
                         'e0 formula agreement, e2 = e0 - e1 for 0nu modes, window clamps',
                         'not decided: that sampled lepton energies fall inside the window; toallevents >= 1 / monotone '
                         '(numerical integration results); energy closure of the follow-up alpha chains']
+    rep.rule('WINDOW.forward', 'each bound of the configured energy-sum window reaches the engine on its own (a one-sided window is honoured)')
+    from ..rules import window
+    window.forward(rep, project.load('lib'), 'WINDOW.forward')
     return rep
 
 
